@@ -89,4 +89,7 @@ fn main() {
     for r in names {
         println!("iresult {:?} {} {} {}", r, r.is_ok() as u8, r.is_revert() as u8, r.is_error() as u8);
     }
+    // C10: static-mode behaviour of every opcode (lines `statictab` / `staticchild`, routed by tables2lean.py
+    // into lean/Revm/Gen/StaticTable.lean)
+    verif_harness::c10::dump_static_table();
 }
